@@ -315,6 +315,18 @@ def run(ctx):
         ndiff += nd3
         if first is None:
             first = first3
+    # directed reproduction of the open finding D20 (known_findings.d/C02.json): lite, a connection given up without a DISCONNECT
+    # and an immediate reconnect over the same transport
+    import c02_lite_zombie_repro
+    z = c02_lite_zombie_repro.main(wait=20.0)
+    ctx.case(key="lite-reconnect-zombie", nontrivial=True, tag="directed:lite-reconnect-zombie:%s" % ("blocked" if z.get("recv_blocked") else "ok"))
+    if z.get("recv_blocked"):
+        ctx.violation("c02:lite-reconnect-zombie",
+                      "lite: a client gives a connection up without a DISCONNECT (its block is cancelled at t=%.2f) and connects again at once over the same transport (same local port); "
+                      "connect() returns, the message it sends is acknowledged, but its recv() neither returns nor raises for %.1f s (bound 2.0 s); the server started %d handler(s), "
+                      "still holds %d record(s): the OLD server connection answers the new client (no session id on lite)" % (
+                          z["cancelled_at"], z["recv_until"] - z["connected_at"], len(z["handlers"]), z["server_table"]),
+                      {"scenario": "harness/c02_lite_zombie_repro.py", "observed": {k: (v if not isinstance(v, list) else str(v)) for k, v in z.items()}})
     ctx.exhaustive = not quick
     ctx.extra["l1_session_diffs"] = ndiff
     if ndiff and not ctx.violations:
